@@ -32,6 +32,7 @@ type Cfg struct {
 	AllowFailPct  int
 	ContinuePct   int // percentage of pipelines with continue_running_tasks_after_failure
 	Retention     bool
+	CountOnly     bool     // with Retention: retention_count only, no period (histories whose oracle cannot tell an automatic save's work from a loss)
 	Preload       bool     // jobs of an earlier run in the store (C12)
 	Logs          bool     // real FileOutputStore; the stand-in runner writes a log file per task
 	ShutdownAtEnd bool     // every history ends with a shutdown
@@ -237,6 +238,9 @@ func GenPipeline(t *rapid.T, cfg *Cfg, tag string) definition.PipelineDef {
 	if cfg.Retention {
 		d.RetentionCount = rapid.SampledFrom(retentionCounts).Draw(t, "retentionCount")
 		d.RetentionPeriod = rapid.SampledFrom(retentionPeriods).Draw(t, "retentionPeriod")
+		if cfg.CountOnly {
+			d.RetentionPeriod = 0
+		}
 	}
 	if pct(t, 40, "pipeEnv") {
 		d.Env = map[string]string{"P_ENV": tag}
